@@ -18,6 +18,7 @@ FINDINGS = {
     "C24-gzip-swallows-error": "decompressGzip returns its nil named result instead of the library error: corrupt gzip data yields (empty, nil)",
     "C24-snappy-no-checksum": "raw snappy blocks carry no checksum: a damaged block can decode to different data with no error",
     "C24-lz4-truncated-frame-header": "an lz4 frame cut at or before its first block-size field decodes to empty data with no error",
+    "C24-lz4-missing-endmark-accepted": "an lz4 frame whose block size was enlarged ends without an end mark and decodes to the original plus trailing bytes with no error",
     "C24-zstd-empty-input": "a zstd frame truncated to zero bytes decodes to empty data with no error",
     "C24-lz4-lib-undetected-corruption": "a damaged lz4 frame decoded to different data with no error",
     "C24-gzip-lib-undetected-corruption": "a damaged gzip stream decoded to different data with no error",
